@@ -7,7 +7,8 @@
 (*                                                                                                                    *)
 (* Events (field ev):                                                                                                 *)
 (*   begin   sid texts tmpls tag          new session (state reset); item texts; templates tag -> field codes          *)
-(*   enq     q item nitems tag            terminal announces a request (hook BEFORE the try-send and the Set)          *)
+(*   enq     q item nitems tag during     terminal announces a request (hook BEFORE the try-send and the Set); during  *)
+(*                                        = the action being executed, "" when the render loop announces it            *)
 (*   sig     immediately sent             outcome of the non-blocking send on killChan (cancel / kill)                 *)
 (*   pick    version q item nitems        previewer took a request from the one-slot box (logged after the take)       *)
 (*   cstart  version pid                  command started                                                              *)
@@ -33,12 +34,13 @@ VARIABLES l, sid, texts, tmpls,
           nsent, nkill, \* successful try-sends / receipts logged
           lastDisp,     \* last display: [v, nlines, head] or None
           started,      \* commands started so far: [pid, v]
+          pvSeq,        \* sequence number of the last event logged by the previewer goroutine itself (pick, cstart, cexit)
           quitSig,      \* outcome of the kill try-send of the exit path as far as logged: none | sent | dropped
           dev, phase    \* phase: run | exited
-vars == <<l, sid, texts, tmpls, issued, expectSig, reqs, cur, nsent, nkill, lastDisp, started, quitSig, dev, phase>>
+vars == <<l, sid, texts, tmpls, issued, expectSig, reqs, cur, nsent, nkill, lastDisp, started, pvSeq, quitSig, dev, phase>>
 
 Init == /\ l = 1 /\ sid = -1 /\ texts = <<>> /\ tmpls = <<>> /\ issued = <<>> /\ expectSig = FALSE /\ reqs = <<>> /\ cur = None
-        /\ nsent = 0 /\ nkill = 0 /\ lastDisp = None /\ started = <<>> /\ quitSig = "none" /\ dev = {} /\ phase = "run"
+        /\ nsent = 0 /\ nkill = 0 /\ lastDisp = None /\ started = <<>> /\ pvSeq = 0 /\ quitSig = "none" /\ dev = {} /\ phase = "run"
 
 Ev == TraceLog[l]
 Is(name) == l <= Len(TraceLog) /\ Ev.ev = name /\ l' = l + 1
@@ -46,7 +48,7 @@ Is(name) == l <= Len(TraceLog) /\ Ev.ev = name /\ l' = l + 1
 TBegin == /\ Is("begin")
           /\ sid' = Ev.sid /\ texts' = Ev.texts /\ tmpls' = Ev.tmpls
           /\ issued' = <<>> /\ expectSig' = FALSE /\ reqs' = <<>> /\ cur' = None /\ nsent' = 0 /\ nkill' = 0 /\ lastDisp' = None
-          /\ started' = <<>> /\ quitSig' = "none" /\ dev' = {} /\ phase' = "run"
+          /\ started' = <<>> /\ pvSeq' = 0 /\ quitSig' = "none" /\ dev' = {} /\ phase' = "run"
 
 -------------------------------------------------------------------------------
 (* what the placeholders of a template evaluate to - documented semantics of {n} {} {q} {+n} {+f} {f} (man fzf)   *)
@@ -78,11 +80,14 @@ Req(e) == [q |-> e.q, item |-> e.item, nitems |-> e.nitems]
 SameReq(r, e) == r.q = e.q /\ r.item = e.item /\ r.nitems = e.nitems
 InFlight == cur # None /\ ~cur.exited
 
-(* refreshPreview / toggle-preview: the announcement precedes the try-send, which precedes the Set *)
+(* refreshPreview / toggle-preview: the announcement precedes the try-send, which precedes the Set.  All of them    *)
+(* happen under t.mutex, so request k is overwritten in the one-slot box before request k+2 is announced: while a    *)
+(* command is in flight (the previewer will not look into the box before it is reaped) only the last two matter.     *)
 TEnq == /\ Is("enq") /\ phase = "run" /\ ~expectSig
-        /\ issued' = Append(issued, [q |-> Ev.q, item |-> Ev.item, nitems |-> Ev.nitems, tag |-> Ev.tag])
+        /\ LET a == Append(issued, [q |-> Ev.q, item |-> Ev.item, nitems |-> Ev.nitems, tag |-> Ev.tag, seq |-> Ev.seq, during |-> Ev.during])
+           IN issued' = IF InFlight /\ Len(a) > 2 THEN SubSeq(a, Len(a) - 1, Len(a)) ELSE a
         /\ expectSig' = TRUE
-        /\ UNCHANGED <<sid, texts, tmpls, reqs, cur, nsent, nkill, lastDisp, started, quitSig, dev, phase>>
+        /\ UNCHANGED <<sid, texts, tmpls, reqs, cur, nsent, nkill, lastDisp, started, pvSeq, quitSig, dev, phase>>
 
 (* the try-send: taken (a watcher was in its select) or dropped.  A drop while a command is in flight is where the  *)
 (* deviations LostCancel / LostKillAtExit of FzfPreview can have happened: both readings are tried, the deviation    *)
@@ -97,7 +102,7 @@ TSig == /\ Is("sig") /\ phase = "run"
                 /\ \/ UNCHANGED dev
                    \/ /\ InFlight /\ (Ev.immediately \/ cur.kills = 0)     \* a command is being started / runs unsignalled
                       /\ dev' = dev \cup {IF Ev.immediately THEN "LostKillAtExit" ELSE "LostCancel"}
-        /\ UNCHANGED <<sid, texts, tmpls, issued, reqs, cur, nkill, lastDisp, started, phase>>
+        /\ UNCHANGED <<sid, texts, tmpls, issued, reqs, cur, nkill, lastDisp, started, pvSeq, phase>>
 
 (* the previewer is sequential: it takes the next request only after the previous command was reaped; it takes one  *)
 (* of the announced requests, never one older than what it took before; versions count up by one.  Taking a request *)
@@ -107,30 +112,36 @@ TPick == /\ Is("pick") /\ phase = "run" /\ Free
          /\ Ev.version = Len(reqs) + 1
          /\ \E i \in 1..Len(issued) :
               /\ SameReq(issued[i], Ev)
+              /\ (i + 2 <= Len(issued) => issued[i + 2].seq > pvSeq)     \* else it was overwritten before the previewer looked
               /\ reqs' = Append(reqs, issued[i])
               /\ issued' = SubSeq(issued, i + 1, Len(issued))
               /\ \/ UNCHANGED dev
                  \/ i < Len(issued) /\ dev' = dev \cup {"LostCancel"}
          /\ cur' = IF Ev.item = -1 THEN None          \* no current line and nothing forces an update: blank preview, no command
                    ELSE [v |-> Ev.version, pid |-> 0, started |-> FALSE, exited |-> FALSE, kills |-> 0, ctx |-> FALSE]
+         /\ pvSeq' = Ev.seq
          /\ UNCHANGED <<sid, texts, tmpls, expectSig, nsent, nkill, lastDisp, started, quitSig, phase>>
 
 TStart == /\ Is("cstart") /\ phase = "run" /\ InFlight /\ ~cur.started /\ cur.v = Ev.version
           /\ cur' = [cur EXCEPT !.started = TRUE, !.pid = Ev.pid]
           /\ started' = Append(started, [pid |-> Ev.pid, v |-> Ev.version])
+          /\ pvSeq' = Ev.seq
           /\ UNCHANGED <<sid, texts, tmpls, issued, expectSig, reqs, nsent, nkill, lastDisp, quitSig, dev, phase>>
 
 (* the watcher leaves its select after one receipt *)
 TKill == /\ Is("kill") /\ phase = "run" /\ InFlight /\ cur.started /\ cur.v = Ev.version /\ cur.kills = 0 /\ ~cur.ctx
          /\ cur' = [cur EXCEPT !.kills = 1] /\ nkill' = nkill + 1
-         /\ UNCHANGED <<sid, texts, tmpls, issued, expectSig, reqs, nsent, lastDisp, started, quitSig, dev, phase>>
+         /\ UNCHANGED <<sid, texts, tmpls, issued, expectSig, reqs, nsent, lastDisp, started, pvSeq, quitSig, dev, phase>>
+(* cancel() comes after killPreview() on the exit path: a watcher can see ctx.Done only after the kill was attempted *)
 TCtx == /\ Is("ctxdone") /\ phase = "run" /\ InFlight /\ cur.started /\ cur.v = Ev.version /\ cur.kills = 0 /\ ~cur.ctx
+        /\ quitSig # "none"
         /\ cur' = [cur EXCEPT !.ctx = TRUE]
-        /\ UNCHANGED <<sid, texts, tmpls, issued, expectSig, reqs, nsent, nkill, lastDisp, started, quitSig, dev, phase>>
+        /\ UNCHANGED <<sid, texts, tmpls, issued, expectSig, reqs, nsent, nkill, lastDisp, started, pvSeq, quitSig, dev, phase>>
 (* nobody but the watcher kills the command: without a receipt it ends by itself, with status 0 *)
 TCExit == /\ Is("cexit") /\ phase = "run" /\ InFlight /\ cur.started /\ cur.v = Ev.version
           /\ (cur.kills = 0 => Ev.status = 0)
           /\ cur' = [cur EXCEPT !.exited = TRUE]
+          /\ pvSeq' = Ev.seq
           /\ UNCHANGED <<sid, texts, tmpls, issued, expectSig, reqs, nsent, nkill, lastDisp, started, quitSig, dev, phase>>
 
 (* displays arrive in version order and show output of a command that was really started for that version; the      *)
@@ -140,7 +151,7 @@ TDisp == /\ Is("disp") /\ phase = "run"
          /\ (lastDisp # None => Ev.version >= lastDisp.v)
          /\ (Ev.nlines > 0 => AgreesWithRequest(Ev.head, reqs[Ev.version]))
          /\ lastDisp' = [v |-> Ev.version, nlines |-> Ev.nlines, head |-> Ev.head]
-         /\ UNCHANGED <<sid, texts, tmpls, issued, expectSig, reqs, cur, nsent, nkill, started, quitSig, dev, phase>>
+         /\ UNCHANGED <<sid, texts, tmpls, issued, expectSig, reqs, cur, nsent, nkill, started, pvSeq, quitSig, dev, phase>>
 
 -------------------------------------------------------------------------------
 (* Quiescence.  e.procs = process groups of preview commands alive in the process table; e.log = the records the    *)
@@ -162,11 +173,14 @@ Right(r, e) == /\ r.tag = e.tag
                /\ r.item = e.cur \/ (NoItem(r.item) /\ NoItem(e.cur))
                /\ (HasCode(e.tag, "q") => r.q = e.q)
                /\ (HasCode(e.tag, "pn") \/ HasCode(e.tag, "pf") \/ HasCode(e.tag, "q") => r.nitems = NItemsOf(e))
+(* CODE-DERIVED (comment in buildPlusList): without a line under the cursor the preview is still run if the template *)
+(* contains {q}, or contains {+} and something is selected; otherwise the window is blanked and no command is run       *)
+Blank(e) == NoItem(e.cur) /\ ~HasCode(e.tag, "q") /\ ~((HasCode(e.tag, "pn") \/ HasCode(e.tag, "pf")) /\ e.sel # <<>>)
 CaughtUp(e) ==
     /\ ~expectSig /\ nkill <= nsent
     /\ reqs # <<>> /\ Right(LastReq, e)
     /\ \A k \in 1..Len(issued) : SameReq(issued[k], LastReq) /\ issued[k].tag = LastReq.tag     \* nothing different is waiting
-    /\ IF NoItem(e.cur) /\ ~HasCode(e.tag, "q")
+    /\ IF Blank(e)
        THEN (* no line under the cursor, nothing to preview: no command, blank window *)
             /\ cur = None /\ e.procs = <<>> /\ lastDisp # None /\ lastDisp.v = Len(reqs) /\ lastDisp.nlines = 0
        ELSE /\ cur # None /\ cur.v = Len(reqs) /\ cur.started /\ cur.kills = 0
@@ -177,6 +191,17 @@ CaughtUp(e) ==
                   /\ e.pane = Expected(e.tag, FinalState(e))                     \* what the terminal shows
                   /\ e.log # <<>> /\ e.log[Len(e.log)].pid = cur.pid             \* what the command itself logged
                   /\ e.log[Len(e.log)].vals = Expected(e.tag, FinalState(e)))
+(* exactly what the deviation StaleAfterShow of FzfPreview leads to: the request taken last was announced by a       *)
+(* toggle-preview / show-preview action, it was served flawlessly - but it is not the one for the final state and   *)
+(* the render loop announced nothing after it                                                                        *)
+StaleAfterShow(e) ==
+    /\ ~expectSig /\ nkill <= nsent
+    /\ reqs # <<>> /\ LastReq.during \in {"toggle-preview", "show-preview"} /\ LastReq.tag = e.tag /\ ~Right(LastReq, e)
+    /\ \A k \in 1..Len(issued) : SameReq(issued[k], LastReq) /\ issued[k].tag = LastReq.tag
+    /\ cur # None /\ cur.v = Len(reqs) /\ cur.started /\ cur.kills = 0
+    /\ (cur.exited => e.procs = <<>>)
+    /\ lastDisp # None /\ lastDisp.v = Len(reqs) /\ lastDisp.nlines > 0 /\ e.pane = lastDisp.head
+    /\ e.log # <<>> /\ e.log[Len(e.log)].pid = cur.pid /\ e.log[Len(e.log)].vals = lastDisp.head
 (* exactly what a lost cancel leads to, and nothing else: the command taken last is still in flight and was never   *)
 (* signalled, while the right request - the one announced last - waits in the box                                    *)
 StuckByLostCancel(e) ==
@@ -187,8 +212,9 @@ StuckByLostCancel(e) ==
     /\ (lastDisp # None /\ lastDisp.nlines > 0 => e.pane = lastDisp.head)
 TQuiet == /\ Is("quiet") /\ phase = "run"
           /\ OneAlive(Ev) /\ LogOK(Ev)
-          /\ Ev.visible => (CaughtUp(Ev) \/ StuckByLostCancel(Ev))
-          /\ UNCHANGED <<sid, texts, tmpls, issued, expectSig, reqs, cur, nsent, nkill, lastDisp, started, quitSig, dev, phase>>
+          /\ \/ (~Ev.visible \/ CaughtUp(Ev) \/ StuckByLostCancel(Ev)) /\ UNCHANGED dev
+             \/ Ev.visible /\ StaleAfterShow(Ev) /\ dev' = dev \cup {"StaleAfterShow"}
+          /\ UNCHANGED <<sid, texts, tmpls, issued, expectSig, reqs, cur, nsent, nkill, lastDisp, started, pvSeq, quitSig, phase>>
 
 (* End of the session: none survives.  A survivor is explained only by a kill that was dropped (LostKillAtExit), or  *)
 (* one that was never attempted / taken by the watcher but not carried out before the process was gone                *)
@@ -199,7 +225,7 @@ TExit == /\ Is("exit") /\ phase = "run"
                /\ \/ quitSig = "dropped" /\ "LostKillAtExit" \in dev /\ UNCHANGED dev
                   \/ quitSig # "dropped" /\ (cur.kills = 0 \/ quitSig = "none") /\ dev' = dev \cup {"ExitBeforeKill"}
          /\ phase' = "exited"
-         /\ UNCHANGED <<sid, texts, tmpls, issued, expectSig, reqs, cur, nsent, nkill, lastDisp, started, quitSig>>
+         /\ UNCHANGED <<sid, texts, tmpls, issued, expectSig, reqs, cur, nsent, nkill, lastDisp, started, pvSeq, quitSig>>
 
 Next == TBegin \/ TEnq \/ TSig \/ TPick \/ TStart \/ TKill \/ TCtx \/ TCExit \/ TDisp \/ TQuiet \/ TExit
 Spec == Init /\ [][Next]_vars
